@@ -384,7 +384,17 @@ func (a *nilAn) fromInvariantMap(base ssa.Value, field string) bool {
 			}
 			return okAny
 		case *ssa.Parameter:
-			return false
+			// a helper handed the value: every call in the module passes such a value
+			sites, ok := a.c.argSites(x.Parent(), x)
+			if !ok {
+				return false
+			}
+			for _, s := range sites {
+				if !from(s.Arg, d+1) {
+					return false
+				}
+			}
+			return true
 		}
 		return false
 	}
@@ -522,9 +532,33 @@ func (a *nilAn) answerDiffersFromNil(bo *ssa.BinOp, key string) (bool, bool) {
 // following the only feasible branches (failed type assertions, nil tests) from the entry.
 func nilAnswer(fn *ssa.Function, idx int) (string, bool) {
 	p := fn.Params[idx]
-	isP := func(v ssa.Value) bool { return core.Strip(v) == ssa.Value(p) }
+	// the values known to be nil on the path followed: the parameter, and a phi (the variable
+	// reassigned in a loop) whose incoming value on that path is one of them
+	nilVals := map[ssa.Value]bool{p: true}
+	isP := func(v ssa.Value) bool { return nilVals[core.Strip(v)] }
 	b := fn.Blocks[0]
+	var prev *ssa.BasicBlock
 	for steps := 0; steps < 400; steps++ {
+		if prev != nil {
+			for pi, pb := range b.Preds {
+				if pb != prev {
+					continue
+				}
+				for _, in := range b.Instrs {
+					ph, ok := in.(*ssa.Phi)
+					if !ok {
+						break
+					}
+					if e := ph.Edges[pi]; isP(e) || core.IsNilConst(e) {
+						nilVals[ph] = true
+					} else {
+						delete(nilVals, ph)
+					}
+				}
+				break
+			}
+		}
+		prev = b
 		switch t := b.Instrs[len(b.Instrs)-1].(type) {
 		case *ssa.Jump:
 			b = b.Succs[0]
